@@ -104,20 +104,48 @@ CONC = {
     'C01': dict(module='Properties.C01', file='Properties/C01.v', slices=['job'],
                 families=['burst', 'lifecycle', 'cancel', 'batch', 'saturate', 'persist', 'recover', 'dist', 'multiq', 'pool', 'order'],
                 quick_episodes=150, thorough_episodes=2000, crash_props=['C03'],
+                native=dict(scenarios=['bigburst'], rounds=1, thorough_rounds=1),
                 diffs=[QUEUES_DIFF], diff_footprint=['E', 'D', 'V', 'S', 'PV', 'H+', 'H-', 'HV', 'HPV', 'validator:'],
                 diff_oracles=['fifo.lost', 'fifo.order', 'fifo.enqueue-result', 'heap.lost', 'heap.order', 'heap.enqueue-result'],
                 rule=SLICE_JOB_RULE + '; plus the queue differential test of C04 (an element accepted by a queue is handed out exactly once)', trusted_base=TB_CONC,
                 assumptions=['job-level theorem: each enqueued job is handed out by its queue at most once (Fifo/Heap refinement theorems, C04) and each payload sent to a pool node is received at most once (channel semantics)',
                              '"eventually runs" is the progress property C03; identity of ID/data: monitors + C12']),
+    'C03': dict(module='Properties.C03', file='Properties/C03.v', slices=['wake'],
+                families=['burst', 'lifecycle', 'cancel', 'saturate', 'pool', 'persist', 'recover', 'multiq', 'batch', 'order'],
+                quick_episodes=150, thorough_episodes=2000, crash_props=['C03'],
+                native=dict(scenarios=['bigburst'], rounds=1, thorough_rounds=1),
+                rule='episodes = scenario programs run under the controlled scheduler on the instrumented library (see C01); per episode the worker-level wake-up protocol is projected onto '
+                     'coq/SliceWake.v — every change of the event loop\'s guard inputs (status, curProcessing, concurrency, pending) with the flag "this thread goes on to notify", every notify, '
+                     'receive, park, close / reopen of the signal channel — and replayed on the extracted model, including the requirement that every step making work dispatchable is followed by '
+                     'a notify and that nothing is owed at rest; the scheduler detects quiescence exactly: a scenario that does not finish, a library goroutine parked anywhere but at its idle '
+                     'point, an accepted job never run on a running worker, fewer than min(pending, limit) gated worker functions in flight, or a runaway loop is a violation; half of the '
+                     'episodes run without a reader on Errs(); distinct_nontrivial = distinct schedule hashes',
+                trusted_base=TB_CONC,
+                assumptions=['"eventually" = at rest: the theorem says nothing dispatchable remains when nothing can move; that the system reaches rest is observed on every explored execution (event budget + watchdog), not proved (no ranking-function theorem)',
+                             'every call of the worker function returns (the property\'s own hypothesis)',
+                             'distributed queues: the adapter delivers an "enqueued" notification per accepted item (adapter contract; family dist monitors the drain)',
+                             '"no job left Processing without a goroutine" (a payload sent to a pool node has a live server): monitored (never-ran / stuck-goroutine), rests on the idle list\'s Remove result being the ownership transfer']),
     'C05': dict(module='Properties.C05', file='Properties/C05.v', slices=['job'],
                 families=['burst', 'lifecycle', 'cancel', 'batch'],
                 quick_episodes=250, thorough_episodes=3000,
-                rule=SLICE_JOB_RULE, trusted_base=TB_CONC,
+                native=dict(scenarios=['bigbatch'], rounds=1, thorough_rounds=1),
+                rule=SLICE_JOB_RULE + '; native mode: a batch of more than 1024 items whose caller Waits before reading the stream', trusted_base=TB_CONC,
                 assumptions=['"they do return" is progress (C03: every accepted job is eventually closed) plus C05_wait_stays_enabled',
                              'Result()/Err() read the per-job response channel, which the finisher fills before it closes the job (order fixed by program order of the pool goroutine; monitored)']),
+    'C07': dict(module='Properties.C07', file='Properties/C07.v', slices=['resp', 'job'],
+                families=['burst', 'batch', 'cancel', 'lifecycle'],
+                quick_episodes=300, thorough_episodes=4000,
+                rule=SLICE_JOB_RULE + '; per single error / result job the channel operations on its response are projected onto coq/SliceResp.v (send, close, receives with payload digests) and replayed; '
+                     'outcomes (value / error / panic) are assigned at random per job, all three worker kinds, concurrency 1..4; every Result() / Err() return and every batch stream element is compared with a pure function '
+                     'of the job\'s data, Metrics.Failed / Successful with the outcome counts',
+                trusted_base=TB_CONC,
+                assumptions=['the wrappers of main.go are modelled as a pure function of the outcome (deliver); that the code computes it is checked by the monitors on every history, not by lock-step',
+                             'ID and data seen by the worker function: C01 identity monitor, C12 for stored jobs',
+                             'Func / ErrFunc / ResultFunc with nil functions: covered by the repository tests; not modelled']),
     'C08': dict(module='Properties.C08', file='Properties/C08.v', slices=['batch', 'job'],
                 families=['batch'],
                 quick_episodes=900, thorough_episodes=10000,
+                native=dict(scenarios=['bigbatch'], rounds=1, thorough_rounds=1),
                 rule=SLICE_JOB_RULE + '; per batch the log is also projected onto the events of coq/SliceBatch.v (counter loads / compare-and-swaps, wait group, '
                      'stream sends / close / receives) and replayed; batches of size 0..6 on all three worker kinds and both in-memory queue kinds, '
                      'closed queue (all items rejected), purge during the batch, stream readers and batch Wait callers',
@@ -163,9 +191,18 @@ CONC = {
             'ids are valid UTF-8 (otherwise C12_arbitrary_id_bytes: each malformed byte comes back as U+FFFD)',
             'job status is one of the five constants (Status() "Unknown" is unreachable)',
             'system level (event loop continues after a decode error, order of the jobs behind a bad entry, acknowledgement): controlled-scheduler family persist']),
+    'C13': dict(module='Properties.C13', file='Properties/C13.v', slices=['job', 'wake'],
+                families=['dist', 'recover', 'multiq'],
+                quick_episodes=500, thorough_episodes=6000,
+                rule=SLICE_JOB_RULE + '; family dist: 1..3 consumers with concurrency 1..3 on one recording adapter (plain / priority), producers that are not consumers, binding before or after '
+                     'items exist, notifications delivered by a goroutine of their own (delay and reordering are schedule choices); monitors: every item executed by exactly one consumer, the '
+                     'adapter drained at rest, the consumers\' Submitted counters add up to the notifications delivered; the wake-up projection (coq/SliceWake.v) is replayed for single-consumer episodes',
+                trusted_base=TB_CONC + ['the recording adapter stands for any user adapter (specification object)'],
+                assumptions=['the adapter hands each pending item to one DequeueWithAckId caller and notifies every subscriber once per accepted item (adapter contract)',
+                             'the wake-up model is replayed for single-consumer episodes only; with several consumers the drain is decided by the monitors']),
     'C14': dict(module='Properties.C14', file='Properties/C14.v', slices=['life'],
-                families=['lifeseq', 'lifecycle'],
-                quick_episodes=1200, thorough_episodes=15000,
+                families=['lifeseq', 'lifecycle', 'pool'],
+                quick_episodes=700, thorough_episodes=15000,
                 rule='episodes of family lifeseq = generated sequences of 1..5 lifecycle calls (Bind, Pause, PauseAndWait, Resume, Stop, WaitAndStop, Restart, '
                      'TunePool incl. n<1, context cancel, interleaved Adds), with / without WithContext and idle expiry, executed one after the other with the '
                      'system run to rest in between, under the controlled scheduler (the asynchronous context listener, dispatcher, reaper interleave freely); '
